@@ -58,7 +58,7 @@ def quiet_guarded(func, node):
 
 def reject_nodes(func):
     out = []
-    is_main = bool(func.d.get("main"))
+    is_main = bool(func.d.get("main")) or (func.d.get("ret") == "int" and func.file in ("btcdeb.cpp", "tap.cpp", "btcc.cpp"))
     for n in func.nodes():
         k = n["k"]
         if k == "throw":
@@ -151,10 +151,9 @@ def chain(fb, mw, fid, limit=40):
 def run(ctx, anchors=None):
     fb, prog = ctx.facts, ctx.prog
     A = anchors or {"main_file": "btcdeb.cpp", "run": "ContinueScript", "print": "print_stack"}
-    mains = [f for f in fb.funcs.values() if f.d.get("main") and f.file == A["main_file"]]
-    if len(mains) != 1:
-        raise AnalysisBroken("btcdeb main() not found")
-    main = mains[0]
+    from . import common
+    entry = common.main_of(fb, A["main_file"])
+    main = common.func_calling(fb, A["main_file"], A["run"])     # the driver: main itself or the worker it delegates to
     cfg = main.cfg()
     ctx.rule("R08.1", "no exception type escapes btcdeb's main() (explicit throws, minus enclosing handlers)")
     ctx.rule("R08.1b", "every tinyformat format string is a literal (so format errors cannot occur)")
@@ -180,23 +179,23 @@ def run(ctx, anchors=None):
 
     # ---- R08.1
     exc = ExcEngine(prog)
-    esc = exc.escaping(main)
-    hard = {t: w for t, w in esc.items() if t not in SOFT_TYPES and w[0] != "libcall" and not _soft_chain(exc, main, t)}
+    esc = exc.escaping(entry)
+    hard = {t: w for t, w in esc.items() if t not in SOFT_TYPES and w[0] != "libcall" and not _soft_chain(exc, entry, t)}
     soft = sorted(set(esc) - set(hard))
     ctx.site(len(main.nodes()))
     if hard:
         # which part of main lets it escape: report per call site region
         regions = {}
         for t in sorted(hard):
-            ch = exc.chain(main, t)
-            regions.setdefault(_region(main, ch), []).append((t, ch))
+            ch = exc.chain(entry, t)
+            regions.setdefault(_region(entry, ch), []).append((t, ch))
         for reg, lst in sorted(regions.items()):
             t, ch = lst[0]
             ctx.fail("R08.1", "escape:main@btcdeb.cpp:" + reg, ch[0].split(" at ")[-1] if ch else main.loc(),
                      "exception %s can leave main() uncaught (terminate/abort): %s" % ("/".join(x[0] for x in lst), " -> ".join(ch[:7])),
                      detail={"types": [x[0] for x in lst], "chains": {x[0]: x[1] for x in lst}})
     else:
-        ctx.ok("R08.1", "escape:main@btcdeb.cpp", main.loc(), "no explicit throw can leave main() uncaught")
+        ctx.ok("R08.1", "escape:main@btcdeb.cpp", entry.loc(), "no explicit throw can leave main() uncaught")
     # the run call specifically
     esc_run = {t: w for t, w in exc.escaping(main, _enclosing_stmt(main, runc)).items()}
     ctx.extra["soft_exception_inventory"] = soft
